@@ -26,12 +26,12 @@ LEVEL = "other"
 MANIFEST = {
     "text": "decides D1 (exact acceptance set and digit values of the decoder by value-set abstract "
             "interpretation over all 256 characters; bounds guard dominates every output store; odd count and "
-            "success value), D2 (encoder guard, tables, masked indices), D3 (C++ decode helper sizes its result "
-            "from the decoder), D4 (copy-on-write exclusivity typestate of the ASCON_NO_STL byte_array, a "
-            "configuration the test-suite never builds) and D4s (byte_array::cmp has std::vector ordering on "
-            "every ordered pair of small array representations incl. the different kinds of empty array, by "
-            "constant propagation through its IR); round-trip equality for all inputs follows informally but is "
-            "not proved",
+            "success value) with D1s / D2s (decoder and encoder evaluated by constant propagation on every byte "
+            "value in both nibble positions / both letter cases and on structured inputs incl. short buffers; a "
+            "finding of the structure proofs D1 / D2 needs such a witness), D3 (C++ decode helper sizes its "
+            "result from the decoder), D4 (copy-on-write exclusivity typestate of the ASCON_NO_STL byte_array) "
+            "and D4s (byte_array::cmp has std::vector ordering on every ordered pair of small array "
+            "representations); round-trip equality for all inputs follows informally but is not proved",
     "note": "trusted: clang lowering, irdump; std::vector itself; the byte_array analysis models "
             "ownership with a two-point lattice (exclusive / possibly shared)",
     "technique": "value-set abstract interpretation of a code slice over a finite domain, dominance/guard "
